@@ -231,8 +231,12 @@ class Receiver:
                     TaskiqState: self.broker.state,
                 },
             )
+            # The broker's dict is shared by all concurrently running
+            # executions, so the resolver gets its own snapshot. Otherwise
+            # dependencies resolved later (use_cache=False) would see
+            # the Context of whichever message was received last.
             dep_ctx = dependency_graph.async_ctx(
-                broker_ctx,
+                dict(broker_ctx),
                 self.broker.dependency_overrides or None,
             )
             # Resolve all function's dependencies.
